@@ -106,6 +106,29 @@ static void run_case(Case &c)
         }
         SEv eot = mk_meta(tick, 0x2F, std::vector<uint8_t>()); eot.serial = serial++; tr.ev.push_back(eot);
     }
+    const bool loop_on = r.chance(0.25);
+    uint64_t loop_end_tick = 0;
+    if(loop_on && !long_song && r.chance(0.7))
+    {   // valid loop markers in track 0 (loop start after the song begin): seeks land before, inside and behind the loop body
+        STrack &t0 = song.tracks[0];
+        std::vector<uint64_t> ticks;
+        for(size_t i = 0; i + 1 < t0.ev.size(); i++) if(ticks.empty() || t0.ev[i].tick != ticks.back()) ticks.push_back(t0.ev[i].tick);
+        if(ticks.size() >= 4)
+        {
+            size_t a = 1 + r.below((uint32_t)(ticks.size() - 2)), b = a + 1 + r.below((uint32_t)(ticks.size() - a - 1));
+            uint64_t L = ticks[a], E = ticks[b];
+            if(L > 0 && E > L)
+            {
+                SEv ms = mk_meta_text(L, 0x06, "loopStart"), me = mk_meta_text(E, 0x06, "loopEnd"); ms.serial = 9001; me.serial = 9002;
+                size_t pe = 0; while(pe < t0.ev.size() && t0.ev[pe].tick < E) pe++;
+                t0.ev.insert(t0.ev.begin() + (long)pe, me);
+                size_t ps = 0; while(ps < t0.ev.size() && t0.ev[ps].tick < L) ps++;
+                t0.ev.insert(t0.ev.begin() + (long)ps, ms);
+                loop_end_tick = E;
+                count("songs_with_loop_markers");
+            }
+        }
+    }
     std::vector<uint8_t> file = serialize_song(song);
     TempoMap tm; tm.build(song);
     long rate = r.pick((const long[]){8000, 22050, 44100});
@@ -119,11 +142,18 @@ static void run_case(Case &c)
     double margin = std::max(4.0 / rate, 2e-4);
     std::vector<std::pair<double, double> > gaps;
     for(size_t i = 0; i + 1 < times.size(); i++) if(times[i + 1] - times[i] > 4 * margin) gaps.push_back(std::make_pair(times[i] + margin, times[i + 1] - margin));
+    if(loop_end_tick)
+    {   // with a marked loop the linear reference is unambiguous only up to the loop end (behind it, linear playback has used up
+        // its passes while a seek starts with all of them): targets stay in front of the loop end, i.e. before or inside the body
+        double tE = (double)tm.seconds(loop_end_tick);
+        std::vector<std::pair<double, double> > g2;
+        for(size_t i = 0; i < gaps.size(); i++) if(gaps[i].second < tE - margin) g2.push_back(gaps[i]);
+        gaps.swap(g2);
+    }
     if(gaps.empty() || ref_len > 600) { c.inconclusive = true; count("inconclusive_no_gap_between_events"); return; }
     auto pick_target = [&]() { const std::pair<double, double> &gp = gaps[r.below((uint32_t)gaps.size())]; return gp.first + r.unit() * (gp.second - gp.first); };
     double t = pick_target();
     if(long_song) { const std::pair<double, double> &gp = gaps[gaps.size() - 1 - r.below((uint32_t)std::min<size_t>(gaps.size(), 1200))]; t = gp.first + r.unit() * (gp.second - gp.first); count("long_song_cases"); }
-    bool loop_on = r.chance(0.2);
     int variant = (int)r.below(100);    // <70: inside target; <80: beyond end; <90: negative; else: seek to 0-ish
     std::string ctx = vfmt("format %d, %zu tracks, division %d, rate %ld, loop %d", song.format, song.tracks.size(), song.division, rate, loop_on ? 1 : 0);
 
